@@ -537,3 +537,80 @@ package signal
 //@     invariant forall(p, 0, $i, at(dst, m0 + p) == old(at(src, p)))
 //@     invariant loopSameExcept(dst, m0, m0 + $i)
 //@     decreases n0 - $i
+
+// ---------------------------------------------------------------------------
+// striped (per-channel) read / write
+// ---------------------------------------------------------------------------
+
+//@ func WriteStriped[S,D](src, dst)
+//@   props C01 C18 C19 C20
+//@   theory axioms
+//@   requires wf(dst) && aligned(dst)
+//@   requires forall(c, 0, len(src), disjoint(src[c], dst))
+//@   panics-iff[slices: C15] dst.channels != len(src)
+//@   let ch = dst.channels
+//@   let L = ite(ch == 0, 0, cdiv(len(dst.data), ch))
+//@   hint cdiv_aligned(len(dst.data), ch)
+//@   hint cdiv_def(len(dst.data), ch)
+//@   ensures[count: C01 C20 opaque] 0 <= result && result <= L && forall(c, 0, ch, min(len(src[c]), L) <= result)
+//@     | && (result == 0 || exists(c, 0, ch, min(len(src[c]), L) == result))
+//@   ensures[values: C01] forall(c, 0, ch, forall(i, 0, result,
+//@     |   at(dst, bi(ch, c, i)) == ite(i < len(src[c]), conv(S, D, old(src[c][i])), zero(D))))
+//@   ensures[frame: C01 C19 C20] sameExcept(dst, 0, bi(ch, 0, result))
+//@   ensures[no-alloc: C18] allocs == old(allocs)
+//@   modifies H(dst)
+//@   loop 1
+//@     invariant 0 <= $i && $i <= len(src) && 0 <= written
+//@     invariant forall(c, 0, $i, len(src[c]) <= written)
+//@     invariant written == 0 || exists(c, 0, $i, len(src[c]) == written)
+//@     decreases len(src) - $i
+//@   loop 2
+//@     invariant 0 <= $i && $i <= ch
+//@     invariant forall(c, 0, $i, forall(i, 0, written,
+//@     |   at(dst, bi(ch, c, i)) == ite(i < len(src[c]), conv(S, D, old(src[c][i])), zero(D))))
+//@     invariant sameExcept(dst, 0, bi(ch, 0, written))
+//@     invariant forall(p, 0, bi(ch, 0, written), chanOf(ch, p) >= $i ==> at(dst, p) == old(at(dst, p)))
+//@     decreases ch - $i
+//@   loop 3
+//@     invariant 0 <= $i && $i <= written
+//@     invariant forall(c, 0, $i2, forall(i, 0, written,
+//@     |   at(dst, bi(ch, c, i)) == ite(i < len(src[c]), conv(S, D, old(src[c][i])), zero(D))))
+//@     invariant forall(i, 0, $i, at(dst, bi(ch, $i2, i)) == ite(i < len(src[$i2]), conv(S, D, old(src[$i2][i])), zero(D)))
+//@     invariant sameExcept(dst, 0, bi(ch, 0, written))
+//@     invariant forall(p, 0, bi(ch, 0, written),
+//@     |   (chanOf(ch, p) > $i2 || (chanOf(ch, p) == $i2 && frameOf(ch, p) >= $i)) ==> at(dst, p) == old(at(dst, p)))
+//@     decreases written - $i
+
+//@ func ReadStriped[S,D](src, dst)
+//@   props C01 C18 C19 C20
+//@   theory axioms
+//@   requires wf(src) && aligned(src)
+//@   requires forall(c, 0, len(dst), disjoint(src, dst[c]))
+//@   requires forall(a, 0, len(dst), forall(b, 0, len(dst), a != b ==> disjoint(dst[a], dst[b])))
+//@   panics-iff[slices: C15] src.channels != len(dst)
+//@   let ch = src.channels
+//@   let L = ite(ch == 0, 0, cdiv(len(src.data), ch))
+//@   hint cdiv_aligned(len(src.data), ch)
+//@   hint cdiv_def(len(src.data), ch)
+//@   ensures[count: C01 C20 opaque] 0 <= result && result <= L && forall(c, 0, ch, min(len(dst[c]), L) <= result)
+//@     | && (result == 0 || exists(c, 0, ch, min(len(dst[c]), L) == result))
+//@   ensures[values: C01] forall(c, 0, ch, forall(i, 0, min(len(dst[c]), L),
+//@     |   dst[c][i] == conv(S, D, old(at(src, bi(ch, c, i))))))
+//@   ensures[frame: C01 C19 C20] forallInt(q, (forall(c, 0, ch, !(ptr(dst[c]) <= q && q < ptr(dst[c]) + min(len(dst[c]), L))))
+//@     |   ==> cell(D, q) == old(cell(D, q)))
+//@   ensures[no-alloc: C18] allocs == old(allocs)
+//@   modifies H(dst)
+//@   loop 1
+//@     invariant 0 <= $i && $i <= ch && 0 <= read && read <= L
+//@     invariant forall(c, 0, $i, min(len(dst[c]), L) <= read)
+//@     invariant read == 0 || exists(c, 0, $i, min(len(dst[c]), L) == read)
+//@     invariant forall(c, 0, $i, forall(i, 0, min(len(dst[c]), L),
+//@     |   dst[c][i] == conv(S, D, old(at(src, bi(ch, c, i))))))
+//@     invariant forallInt(q, (forall(c, 0, $i, !(ptr(dst[c]) <= q && q < ptr(dst[c]) + min(len(dst[c]), L))))
+//@     |   ==> cell(D, q) == old(cell(D, q)))
+//@     decreases ch - $i
+//@   loop 2
+//@     invariant 0 <= $i && $i <= min(len(dst[$i1]), L)
+//@     invariant forall(i, 0, $i, dst[$i1][i] == conv(S, D, old(at(src, bi(ch, $i1, i)))))
+//@     invariant loopSameExcept(dst[$i1], 0, $i)
+//@     decreases min(len(dst[$i1]), L) - $i
